@@ -39,6 +39,7 @@ class Scenario:
     fix_stamp: bool = True
     fix_etag: bool = False
     fix_gc: bool = False
+    fix_interrupt: bool = True
     grace: int = 0
 
     def idx(self, a: str) -> int:
@@ -174,7 +175,12 @@ class Execution:
                 extra: Dict[str, Any] = {}
                 try:
                     t = op["t"]
-                    if t == "append":
+                    if t == "append" and op.get("style") == "explicit":
+                        tx = table.new_transaction().begin()
+                        for k in range(1, op.get("n", 1) + 1):
+                            tx.append_data([{"id": self.scn.idx(spec.name) * 100 + i * 10 + k, "k": 0}], schema())
+                        tx.commit()
+                    elif t == "append":
                         n = op.get("n", 1)
                         if n == 1 and op.get("style", "records") == "records":
                             base = self.scn.idx(spec.name) * 100 + i * 10
@@ -229,6 +235,8 @@ class Execution:
                         extra["nrows"] = len(rows)
                     else:
                         raise MachineryError(f"unknown op {t}")
+                except (KeyboardInterrupt, SystemExit):
+                    res = "interrupted"
                 except ConcurrentModificationException:
                     res = "cme"
                 except AmbiguousCommitError:
@@ -317,7 +325,10 @@ def spec_prog(scn: Scenario) -> Dict[str, List[Dict[str, Any]]]:
         for i, op in enumerate(a.prog, start=1):
             t = op["t"]
             if t == "append":
-                ops.append({"t": "append", "add": [scn.idx(a.name) * 100 + i * 10 + k for k in range(1, op.get("n", 1) + 1)]})
+                o = {"t": "append", "add": [scn.idx(a.name) * 100 + i * 10 + k for k in range(1, op.get("n", 1) + 1)]}
+                if op.get("style") == "explicit":
+                    o["style"] = "explicit"
+                ops.append(o)
             elif t == "delete":
                 ids = set()
                 for r in op["refs"]:
@@ -359,7 +370,7 @@ def scn_constants(scn: Scenario) -> Dict[str, Any]:
     return {"Actors": R("<- ScnActors"), "Role": R("<- ScnRole"), "Idx": R("<- ScnIdx"), "Handle": R("<- ScnHandle"),
             "Prog": R("<- ScnProg"), "Backend": scn.backend, "LockKind": scn.lock_kind, "ClockMode": scn.clock_mode,
             "MaxClock": 1000000, "MaxAttempts": scn.max_attempts, "InitSnaps": scn.init_snaps,
-            "FixStamp": scn.fix_stamp, "FixEtag": scn.fix_etag, "FixGCOrder": scn.fix_gc, "FaultBudget": 0, "Grace": scn.grace}
+            "FixStamp": scn.fix_stamp, "FixEtag": scn.fix_etag, "FixGCOrder": scn.fix_gc, "FixInterrupt": scn.fix_interrupt, "FaultKinds": set(), "FaultBudget": 0, "Grace": scn.grace}
 
 
 L1_INVARIANTS = ["TypeOK", "Serializable", "LinearChain", "AckedOnce", "NoDoubleCommit", "ReachablePresent",
@@ -458,12 +469,35 @@ def double_pause_schedules(scn: Scenario, steps: Dict[str, int], r: Any, n: int)
     return out
 
 
+def fault_schedules(scn: Scenario, steps: Dict[str, int], actor: str, kinds: Sequence[Tuple[str, str]], stride: int = 1) -> List[List[Any]]:
+    """One fault per execution: `actor` runs k gates, its next gate fails with (when, kind); every k."""
+    out: List[List[Any]] = []
+    for k in range(0, steps.get(actor, 0) + 1, stride):
+        for when, kind in kinds:
+            out.append([actor] * k + [["fault", actor, when, kind]] + [actor] * 400)
+    return out
+
+
+def _mk_policy_list(payload: List[Any]) -> ListPolicy:
+    sched: List[Any] = []
+    for d in payload:
+        if isinstance(d, (list, tuple)) and len(d) == 4 and d[0] == "fault":
+            sched.append(("fault", d[1], Fault(when=d[2], kind=d[3])))
+        elif isinstance(d, (list, tuple)) and len(d) == 2 and isinstance(d[1], int) and isinstance(d[0], str) and d[0] not in ("env", "crash"):
+            sched += [d[0]] * d[1]
+        elif isinstance(d, list):
+            sched.append(tuple(d))
+        else:
+            sched.append(d)
+    return ListPolicy(sched)
+
+
 def _worker_run(args: Tuple[Scenario, Any, Any]) -> Dict[str, Any]:
     scn, kind, payload = args
     from .common import rng as _rng
 
     if kind == "list":
-        pol: Policy = ListPolicy(payload)
+        pol: Policy = _mk_policy_list(payload)
     else:
         seed, switch_p, env_p = payload
         pol = RandomPolicy(_rng(seed, scn.name), switch_p=switch_p, env_p=env_p)
